@@ -45,7 +45,7 @@ def run(repo: Repo) -> Result:
     # ---- anchors + R3
     anchors = c08_scan.discover(repo)
     n3 = c08_scan.run(repo, res, "C08.R3", anchors)
-    res.floor("C08.R3", 5, n3)
+    res.floor("C08.R3", 4, n3)
     # ---- R2
     info = {"config_cls": None, "field": None}
     if anchors.filter_cls is not None and anchors.pred_names:
